@@ -266,8 +266,10 @@ inductive JU
   | none | list (xs : List (List Int × Atom)) | single (dims : List Int) (dir : Atom)
   deriving DecidableEq, Repr
 
-/-- `for size in lattice_sizes: if size < 2: raise` → the sizes as integers -/
-def parseSizes (v : Val) : Except Err (List Int) := do
+/-- `if not lattice_sizes: raise`, `for size in lattice_sizes: if size < 2: raise` → the sizes as integers -/
+def parseSizes (v : Val) : Except Err (List Int) :=
+  -- fix 93797fc: `if not lattice_sizes: raise ValueError` (an empty list / tuple, also `None` and 0)
+  if !v.truthy then ve else do
   let xs ← v.iter
   let ys ← mapE (fun it => match it with
     | .a (.int i) => Except.ok i
@@ -671,6 +673,8 @@ structure PwlCfg where
   mono : Atom
   conv : Atom
   cyclic : Bool
+  /-- the piece lengths given as a Python list (`PWLCalibrationConstraints(lengths=…)`) -/
+  lengths : Option (List Rat) := Option.none
   deriving DecidableEq, Repr
 
 def strictlyIncreasing : List Rat → Bool
@@ -689,7 +693,27 @@ def parseKeypoints (v : Val) : Except Err (Option (List Rat)) :=
         | _ => te) xs
       if !strictlyIncreasing ys then ve else pure (some ys)
 
-def verifyPwl (kp omin omax mono conv cyclic kptype : Val) : Except Err PwlCfg := do
+/-- `all(length > 0 for length in lengths)` (fix e215d06), short-circuiting like Python: the first
+non-positive length is a `ValueError`, a `None` / string entry reached before it a `TypeError` -/
+def lengthsLoop : List Item → Except Err (List Rat)
+  | [] => .ok []
+  | .a x :: rest => do
+    let r ← x.toNum
+    if r > 0 then do
+      let rs ← lengthsLoop rest
+      pure (r :: rs)
+    else ve
+  | .s _ _ :: _ => te
+
+/-- `lengths is not None and not tf.is_tensor(lengths)`: every length must be positive -/
+def parseLengths (v : Val) : Except Err (Option (List Rat)) :=
+  if v.isNone then .ok Option.none
+  else do
+    let xs ← v.iter
+    let rs ← lengthsLoop xs
+    pure (some rs)
+
+def verifyPwl (kp omin omax mono conv cyclic kptype : Val) (lengths : Val := .a .none) : Except Err PwlCfg := do
   let k ← parseKeypoints kp
   let lo ← boundOf omin
   let hi ← boundOf omax
@@ -698,8 +722,10 @@ def verifyPwl (kp omin omax mono conv cyclic kptype : Val) : Except Err PwlCfg :
   let m ← canonMonotonicity true mono.toItem
   let c ← canonConvexity conv.toItem
   if cyclic.truthy && (m.truthy || c.truthy) then ve
-  else if !(kptype.isNone || kptype == .a (.str .fixed) || kptype == .a (.str .learned_interior)) then ve
-  else pure ⟨k, lo, hi, m, c, cyclic.truthy⟩
+  else
+  let ls ← parseLengths lengths
+  if !(kptype.isNone || kptype == .a (.str .fixed) || kptype == .a (.str .learned_interior)) then ve
+  else pure ⟨k, lo, hi, m, c, cyclic.truthy, ls⟩
 
 /-- `PWLCalibration.__init__`: the lib verification, then the constructor's own checks -/
 structure RawPwl where
@@ -742,7 +768,7 @@ structure RawPwlC where
   omin : Val
   omax : Val
 def pwlConstraints (r : RawPwlC) : Except Err PwlCfg :=
-  verifyPwl (.a .none) r.omin r.omax r.mono r.conv (.a (.int 0)) (.a .none)
+  verifyPwl (.a .none) r.omin r.omax r.mono r.conv (.a (.int 0)) (.a .none) r.lengths
 
 structure RawPwlInit where
   omin : Val
@@ -751,6 +777,32 @@ structure RawPwlInit where
   kp : Val
 def uniformOutputInitializer (r : RawPwlInit) : Except Err PwlCfg :=
   verifyPwl r.kp r.omin r.omax r.mono (.a .none) (.a (.int 0)) (.a .none)
+
+/-! ## the cycle check of the categorical (fix 66006cc) and linear (fix 2ef7ec2) validations: rounds of
+Kahn's algorithm on the SET of pairs
+
+```
+remaining = set((i, j) for (i, j) in monotonicities)
+while remaining:
+  has_smaller = set(j for (_, j) in remaining)
+  resolved = set((i, j) for (i, j) in remaining if i not in has_smaller)
+  if not resolved: raise ValueError("Circular monotonicity constraints …")
+  remaining -= resolved
+```
+The model keeps the LIST (with its repetitions): a pair is kept or dropped together with all its
+copies, so emptiness and "nothing resolved" (= the filter dropped nothing) coincide with the set's.
+Every successful round removes at least one pair, so `fuel = length` rounds suffice
+(`Tfl.Verify.kahnAcyclic_fuel`, Lemmas/Kahn.lean: any larger fuel gives the same answer). -/
+
+/-- `remaining - resolved`: the pairs `(i, j)` whose `i` is the larger bucket of a remaining pair -/
+def kahnStep {α} [BEq α] (ps : List (α × α)) : List (α × α) :=
+  ps.filter (fun p => ps.any (fun q => q.2 == p.1))
+
+/-- `true`: the loop ends with `remaining` empty; `false`: a round resolves nothing (`ValueError`) -/
+def kahnAcyclic {α} [BEq α] : Nat → List (α × α) → Bool
+  | 0, ps => ps.isEmpty
+  | fuel + 1, ps =>
+    ps.isEmpty || ((kahnStep ps).length != ps.length && kahnAcyclic fuel (kahnStep ps))
 
 /-! ## `linear_lib.verify_hyperparameters` -/
 
@@ -827,7 +879,9 @@ def linRdLoop (mono : List Atom) (imin imax : Option (List Atom)) :
         else
           let d := atomNat a
           let w := atomNat b
-          if (mono.getD d .none).num ≠ (mono.getD w .none).num || (mono.getD d .none).num == some 0 then ve
+          -- `monotonicities[d] != monotonicities[w] or not monotonicities[d]` (fix 1f0b06a: `None` is falsy
+          -- like 0; it used to be `== 0`, which `None` passes)
+          if (mono.getD d .none).num ≠ (mono.getD w .none).num || !(mono.getD d .none).truthy then ve
           else
             let miss ← rdBoundsMissing imin imax d w
             if miss then ve
@@ -842,7 +896,10 @@ def linMd (mono : Option (List Atom)) (mdV : Val) : Except Err (List (Nat × Nat
     | Option.none => oe
     | some m => do
       let xs ← mdV.iter
-      linMdLoop m xs []
+      let ps ← linMdLoop m xs []
+      -- fix 2ef7ec2: `_verify_no_circular_dominances(dim_pairs, "monotonic")` on the set of
+      -- (dominant, weak) pairs (the list with its repetitions answers like the set)
+      if !kahnAcyclic ps.length ps then ve else pure ps
 
 /-- the `range_dominances` section -/
 def linRd (mono imin imax : Option (List Atom)) (rdV : Val) : Except Err (List (Nat × Nat)) :=
@@ -851,7 +908,9 @@ def linRd (mono imin imax : Option (List Atom)) (rdV : Val) : Except Err (List (
     | Option.none => oe
     | some m => do
       let xs ← rdV.iter
-      linRdLoop m imin imax xs []
+      let ps ← linRdLoop m imin imax xs []
+      -- fix 2ef7ec2: `_verify_no_circular_dominances(dim_pairs, "range")`
+      if !kahnAcyclic ps.length ps then ve else pure ps
 
 /-- a dimension constrained by both kinds of dominance -/
 def sharedDim (md rd : List (Nat × Nat)) : Bool :=
@@ -915,6 +974,13 @@ def linearLayer (r : RawLin) : Except Err LinCfg :=
     verifyLinear (some k.toNat) (linearBroadcast k.toNat r.mono) (.a .none) (.a .none) r.imin r.imax
   | _ => oe
 
+/-- `v is not None and v < k` (a string or a list compared with a number is a `TypeError`) -/
+def lessThan (v : Val) (k : Rat) : Except Err Bool :=
+  match v with
+  | .a .none => .ok false
+  | .a x => (x.toNum).map (· < k)
+  | _ => te
+
 /-! ## `categorical_calibration_lib.verify_hyperparameters` -/
 
 structure CatCfg where
@@ -955,32 +1021,10 @@ def catPairs (nb : Option Int) (monoV : Val) : Except Err (List (Rat × Rat)) :=
     | .s false xs => if !(xs.all isPairItem) then ve else mapE (catPair nb) xs
     | _ => ve
 
-/-! ### the cycle check (fix 66006cc): rounds of Kahn's algorithm on the SET of pairs
-
-```
-remaining = set((i, j) for (i, j) in monotonicities)
-while remaining:
-  has_smaller = set(j for (_, j) in remaining)
-  resolved = set((i, j) for (i, j) in remaining if i not in has_smaller)
-  if not resolved: raise ValueError("Circular monotonicity constraints …")
-  remaining -= resolved
-```
-The model keeps the LIST (with its repetitions): a pair is kept or dropped together with all its
-copies, so emptiness and "nothing resolved" (= the filter dropped nothing) coincide with the set's.
-Every successful round removes at least one pair, so `fuel = length` rounds suffice
-(`Tfl.Verify.kahnAcyclic_fuel`, Lemmas/Kahn.lean: any larger fuel gives the same answer). -/
-
-/-- `remaining - resolved`: the pairs `(i, j)` whose `i` is the larger bucket of a remaining pair -/
-def kahnStep {α} [BEq α] (ps : List (α × α)) : List (α × α) :=
-  ps.filter (fun p => ps.any (fun q => q.2 == p.1))
-
-/-- `true`: the loop ends with `remaining` empty; `false`: a round resolves nothing (`ValueError`) -/
-def kahnAcyclic {α} [BEq α] : Nat → List (α × α) → Bool
-  | 0, ps => ps.isEmpty
-  | fuel + 1, ps =>
-    ps.isEmpty || ((kahnStep ps).length != ps.length && kahnAcyclic fuel (kahnStep ps))
-
 def verifyCategorical (nbV omin omax monoV : Val) : Except Err CatCfg := do
+  -- fix 76984f9: `num_buckets is not None and num_buckets < 1`
+  let few ← lessThan nbV 1
+  if few then ve else
   let lo ← boundOf omin
   let hi ← boundOf omax
   if hiLtLo lo hi then ve
@@ -1013,12 +1057,6 @@ structure KflCfg where
   lo : Option Rat
   hi : Option Rat
   deriving DecidableEq, Repr
-
-def lessThan (v : Val) (k : Rat) : Except Err Bool :=
-  match v with
-  | .a .none => .ok false
-  | .a x => (x.toNum).map (· < k)
-  | _ => te
 
 structure RawKfl where
   size : Val
@@ -1102,14 +1140,15 @@ structure RawPremade where
   kf : Nat              -- parameterization == 'kronecker_factored'
   regs : Nat            -- model-level regularizers: 0 none, 1 calib only, 2 has a lattice one
   lat : Nat             -- lattices: 0 'rtl_layer', 1 another string, 2 list of well-formed lattices,
-                        -- 3 list with a malformed entry, 4 anything else (None)
+                        -- 3 list with a malformed entry (not iterable, a non-string feature name, or —
+                        -- since fix b6fcc7a — an EMPTY lattice), 4 anything else (None)
   nlat : Nat            -- len(lattices) when it is a list
   numLattices : Option Int
   midDim : Int
   midCal : Nat
   midMono : Nat         -- middle_monotonicity is not None
-  outInit : Nat         -- output_initialization: 0 list of numbers, 1 string, 2 list with a
-                        -- non-number, 3 None
+  outInit : Nat         -- output_initialization: 0 non-empty list of numbers, 1 string, 2 list with a
+                        -- non-number, 3 None, 4 empty list (rejected since fix b6fcc7a)
 
 def verifyFeature (f : Feat) : Except Err Unit :=
   if f.buckets = 0 then
@@ -1148,6 +1187,8 @@ def premadeConfig (r : RawPremade) : Except Err Unit :=
   match r.feats with
   | Option.none => ve
   | some fs => do
+    -- fix b6fcc7a: `if not model_config.feature_configs` (an empty list as well as None)
+    if fs.isEmpty then ve
     if r.kind = 2 then verifyEnsemble r fs
     if (r.kind = 2 ∨ r.kind = 0) ∧ r.kf = 1 then verifyKf r fs
     if r.kind = 3 then
